@@ -422,6 +422,10 @@ Definition run_case (op : N) (ts : list wtok) : list wtok :=
   match op with
   | 1 => run_rd r_n ts (fun ms => w_chk w_ts (from_ms ms))
   | 2 => run_rd r_n ts (fun us => w_chk w_ts (from_us us))
+  (* 5 TS_CONCURRENT: the implementation converts the values on several threads at once; each result is the
+     function of its input (the model has nothing shared to race on) *)
+  | 5 => run_rd (rlet ms := r_bool in rlet l := r_list r_n in rret (ms, l)) ts
+           (fun '(ms, l) => flat_map (fun v => w_chk w_ts (if ms then from_ms v else from_us v)) l)
   | 3 => run_rd (rlet n := r_n in rlet b := r_bytes in rret (n, b)) ts
            (fun '(n, b) => w_pres w_bytes (zstring n b))
   | 4 => run_rd r_n ts (fun w =>
